@@ -1,6 +1,8 @@
 """C01 -- regex membership equals the SMT-LIB denotation of the construction program."""
 from regexgen import *
 ENGINE = "regex"
+# release as well: the documented asserts of char / range must not be debug-only checks
+PROFILES = ["debug", "release"]
 TIMEOUT = 900
 PARTIAL = ["C01 theorems are stated for the model; see evidence.theorems; language-level correctness of every constructor is proved in coq/LangProofs*.v as far as listed there"]
 ASSUMPTIONS = ["constructor calls that panic on u32 overflow of loop bounds produce no term (compared as PANIC on both sides)",
